@@ -566,8 +566,7 @@ def run(ctx):
             judge(ctx, sc, R, S)
         ctx.extra['exhaustive_subspace'] = f'all ordered selections of 1..3 events from 5 (Data, 2 Nacks, 2 cancels) over 2 Interests x 2 name pairs x CanBePrefix x 2 front-ends: {len(space)} scenarios'
     for k in ('outcome-data', 'outcome-timeout', 'outcome-nack', 'outcome-cancel', 'outcome-valfail', 'validator-calls'):
-        if not ctx.events.get(k):
-            ctx.inconclusive(f'no {k} observed')
+        ctx.need_event(k)
     ctx.assumptions = ['exact ties (packet / validator completion / deadline in the same millisecond) accept either order',
                        'Data arrived in time but validator slower than the deadline: Data/ValidationFailure at validator completion or timeout at the deadline are both accepted here (C05 decides that clause)',
                        'a Nack whose Interest shares its table node with an Interest of a different full name is ambiguous and not judged for the sibling']
